@@ -1593,9 +1593,11 @@ class Parameter(_ParameterBase):
             def update_link():
                 if ref is not None:
                     self.owner.param._update_ref(name, ref, is_async)
-                elif name in obj._param__private.refs and not syncing:
+                elif (name in obj._param__private.refs and not syncing
+                      and not obj.param._TRIGGER):
                     # a plain value ends the link for good, including the
-                    # watchers kept on its sources
+                    # watchers kept on its sources (param.trigger re-assigns
+                    # the current value: not an override)
                     self.owner.param._update_ref(name, None)
 
             if is_async or val is Undefined:
